@@ -872,6 +872,9 @@ func monC08(c *Case, tr *Trace) []Violation {
 			add("handler_invoked_twice", invs[1].Step, "rpc %d: %d handler invocations", i, len(invs))
 		}
 		wantMethod := sp.Shape
+		if sp.Alt {
+			wantMethod = "alt:" + sp.Shape
+		}
 		if sp.Method != "" {
 			wantMethod = ""
 			for _, sh := range []string{"unary", "cstream", "sstream", "bidi"} {
